@@ -3,6 +3,29 @@
 //! S-expression serialiser understood by `lean/CapyV/Driver/Core.lean`.
 use crate::rng::Rng;
 
+/// How global names are spelled from the file currently being printed (C20 splits a program
+/// over several files): `None` = everything is in one file.
+#[derive(Clone, Debug, Default)]
+pub struct Qual {
+    pub file_of_fn: Vec<usize>,
+    pub file_of_struct: Vec<usize>,
+    pub current: usize,
+}
+
+thread_local! {
+    static QUAL: std::cell::RefCell<Option<Qual>> = const { std::cell::RefCell::new(None) };
+}
+
+fn qualify(is_fn: bool, idx: usize, base: String) -> String {
+    QUAL.with(|q| match q.borrow().as_ref() {
+        None => base,
+        Some(q) => {
+            let f = if is_fn { q.file_of_fn[idx] } else { q.file_of_struct[idx] };
+            if f == q.current { base } else { format!("file{f}.{base}") }
+        }
+    })
+}
+
 #[derive(Clone, Debug, PartialEq, Eq, Hash)]
 pub enum Ty {
     Int(bool, u32),
@@ -21,7 +44,7 @@ impl Ty {
             Ty::Void => "void".into(),
             Ty::Arr(n, t) => format!("[{}]{}", n, t.capy()),
             Ty::Opt(t) => format!("?{}", t.capy()),
-            Ty::Struct(i) => format!("S{i}"),
+            Ty::Struct(i) => qualify(false, *i, format!("S{i}")),
         }
     }
     pub fn sexp(&self) -> String {
@@ -116,6 +139,8 @@ pub enum Stmt {
     Ret(Option<Expr>),
     Defer(Box<Stmt>),
     ExprS(Expr),
+    /// raw Capy text (used by mutators that deliberately leave the fragment); never sent to Lean
+    Raw(String),
 }
 
 #[derive(Clone, Debug)]
@@ -201,6 +226,7 @@ impl Stmt {
             Stmt::Ret(Some(e)) => format!("(ret {})", e.sexp()),
             Stmt::Defer(s) => format!("(defer {})", s.sexp()),
             Stmt::ExprS(e) => format!("(expr {})", e.sexp()),
+            Stmt::Raw(_) => "(raw)".into(),
         }
     }
 }
@@ -250,13 +276,13 @@ impl Expr {
             Expr::Neg(_, a) => format!("(-{})", a.capy()),
             Expr::BNot(_, a) => format!("(~{})", a.capy()),
             Expr::Cast(_, d, a) => format!("{}.({})", d.capy(), a.capy()),
-            Expr::Call(f, args) => format!("f{}({})", f, args.iter().map(|a| a.capy()).collect::<Vec<_>>().join(", ")),
+            Expr::Call(f, args) => format!("{}({})", qualify(true, *f, format!("f{f}")), args.iter().map(|a| a.capy()).collect::<Vec<_>>().join(", ")),
             Expr::Index(a, i) => format!("{}[{}]", a.capy(), i.capy()),
             Expr::Field(a, k) => format!("{}.m{}", a.capy(), k),
             Expr::ArrLit(t, es) => format!("{}.[{}]", t.capy(), es.iter().map(|a| a.capy()).collect::<Vec<_>>().join(", ")),
             Expr::StructLit(id, es) => format!(
-                "S{}.{{ {} }}",
-                id,
+                "{}.{{ {} }}",
+                qualify(false, *id, format!("S{id}")),
                 es.iter().enumerate().map(|(k, e)| format!("m{} = {}", k, e.capy())).collect::<Vec<_>>().join(", ")
             ),
             Expr::Nil => "nil".into(),
@@ -326,11 +352,80 @@ impl Stmt {
                 out.push_str(&format!("{pad}defer {}", inner.trim_start()));
             }
             Stmt::ExprS(e) => out.push_str(&format!("{pad}{};\n", e.capy())),
+            Stmt::Raw(t) => out.push_str(&format!("{pad}{t}\n")),
         }
     }
 }
 
+#[derive(Clone, Copy, Debug, PartialEq, Eq)]
+pub enum Global {
+    Struct(usize),
+    Fn(usize),
+}
+
 impl Program {
+    pub fn globals(&self) -> Vec<Global> {
+        (0..self.structs.len()).map(Global::Struct).chain((0..self.fns.len()).map(Global::Fn)).collect()
+    }
+
+    fn global_capy(&self, g: Global) -> String {
+        match g {
+            Global::Struct(i) => format!(
+                "S{} :: struct {{ {} }};\n\n",
+                i,
+                self.structs[i].fields.iter().enumerate().map(|(k, t)| format!("m{}: {}", k, t.capy())).collect::<Vec<_>>().join(", ")
+            ),
+            Global::Fn(i) => {
+                let f = &self.fns[i];
+                let name = if i == 0 { "main".to_string() } else { format!("f{i}") };
+                let params = f.params.iter().map(|(x, t)| format!("v{}: {}", x, t.capy())).collect::<Vec<_>>().join(", ");
+                let ret = if f.ret == Ty::Void { String::new() } else { format!(" -> {}", f.ret.capy()) };
+                let mut s = format!("{name} :: ({params}){ret} {{\n");
+                stmts_capy(&f.body, 1, &mut s);
+                s.push_str("}\n\n");
+                s
+            }
+        }
+    }
+
+    /// one file, global definitions in the given textual order
+    pub fn capy_ordered(&self, order: &[Global]) -> String {
+        let mut s = String::from("core :: #mod(\"core\");\n\n");
+        for g in order {
+            s.push_str(&self.global_capy(*g));
+        }
+        s
+    }
+
+    /// several files: `file_of[k]` = file index of `self.globals()[k]`; file 0 is the root and must
+    /// contain `main`. Every file imports all the others (import cycles are allowed).
+    pub fn capy_files(&self, order: &[Global], file_of: &dyn Fn(Global) -> usize, nfiles: usize) -> Vec<(String, String)> {
+        let q = Qual {
+            file_of_fn: (0..self.fns.len()).map(|i| file_of(Global::Fn(i))).collect(),
+            file_of_struct: (0..self.structs.len()).map(|i| file_of(Global::Struct(i))).collect(),
+            current: 0,
+        };
+        let mut files = vec![];
+        for f in 0..nfiles {
+            QUAL.with(|c| *c.borrow_mut() = Some(Qual { current: f, ..q.clone() }));
+            let mut s = String::from("core :: #mod(\"core\");\n");
+            for g in 0..nfiles {
+                if g != f {
+                    s.push_str(&format!("file{g} :: #import(\"file{g}.capy\");\n"));
+                }
+            }
+            s.push('\n');
+            for g in order {
+                if file_of(*g) == f {
+                    s.push_str(&self.global_capy(*g));
+                }
+            }
+            files.push((format!("file{f}.capy"), s));
+        }
+        QUAL.with(|c| *c.borrow_mut() = None);
+        files
+    }
+
     /// `order`: the textual order of the global definitions (indices: structs first, then fns)
     pub fn capy(&self) -> String {
         let mut s = String::from("core :: #mod(\"core\");\n\n");
